@@ -28,13 +28,13 @@ import numpy as np
 
 from mc import payload
 
-PLACEMENTS = ("spread", "pair", "low", "high")
+PLACEMENTS = ("spread", "pair", "low", "high", "close")
 DAMPINGS = ("lo", "hi", "graded")
 TOL = {"fn": 1e-7, "xi": 1e-6, "mac": 1e-9}
 
 
 def freqs(m, placement):
-    """Normalised natural frequencies f/fs in (0, 0.45], ascending, distinct. 'pair' needs m >= 2."""
+    """Normalised natural frequencies f/fs in (0, 0.45], ascending, distinct. 'pair' and 'close' need m >= 2."""
     if placement == "spread":
         f = np.linspace(0.04, 0.44, m + 2)[1:-1] if m > 1 else np.array([0.2])
     elif placement == "pair":          # two modes 0.03 fs apart
@@ -45,6 +45,10 @@ def freqs(m, placement):
         f = np.concatenate([[0.02], np.linspace(0.1, 0.4, max(m - 1, 0))])[:m]
     elif placement == "high":          # highest mode at 0.45 fs
         f = np.concatenate([np.linspace(0.05, 0.35, max(m - 1, 0)), [0.45]])[-m:]
+    elif placement == "close":         # two modes 3 % apart: closer than the default extraction tolerance (rtol 5e-2)
+        if m < 2:
+            raise ValueError("close needs m >= 2")
+        f = np.concatenate([[0.20, 0.206], np.linspace(0.3, 0.42, m - 2)])
     else:
         raise ValueError(placement)
     return np.sort(np.asarray(f, float))
